@@ -351,7 +351,7 @@ register("C08", title="output stream next-message lookup", pkg="./internal/outpu
 
 
 register("C09", title="LevelDB store honours LogStore / StableStore", pkg="./internal/raftstore",
-         parts=[{"test": "^TestVerifC09$", "children": {"quick": 16, "thorough": 16}, "cases": {"quick": 40, "thorough": 700}},
+         parts=[{"test": "^TestVerifC09$", "children": {"quick": 16, "thorough": 16}, "cases": {"quick": 40, "thorough": 2500}},
                 {"test": "^TestVerifC09Concurrent$", "name": "raftstore_race", "race": True, "may_die": True, "children": {"quick": 2, "thorough": 8}, "cases": {"quick": 4, "thorough": 30}}],
          post_run=race_post_run("raftstore", "data race inside the log store while raft's readers and its writer use it concurrently (a reader can be handed another entry's fields)"),
          timeout={"quick": 300, "thorough": 1800}, level="exploration",
@@ -431,7 +431,7 @@ register("C02", title="compaction / snapshot / restore are invisible", pkg=".",
 
 register("C10", title="retried POST is not applied twice", pkg=".",
          env={"ROBUSTIRC_TESTING_ENABLE_PANIC_COMMAND": "1"},
-         parts=[{"test": "^TestVerifC10$", "children": {"quick": 8, "thorough": 16}, "cases": {"quick": 40, "thorough": 400}},
+         parts=[{"test": "^TestVerifC10$", "children": {"quick": 8, "thorough": 16}, "cases": {"quick": 40, "thorough": 6000}},
                 {"pkg": "./internal/ircserver", "test": "^TestVerifIRC$", "children": {"quick": 6, "thorough": 16}, "cases": {"quick": 150, "thorough": 3000}},
                 dict(MAIN_ENGINE),
                 {"test": "^TestVerifC07$", "children": {"quick": 4, "thorough": 8}, "cases": {"quick": 5, "thorough": 30}, "on_fatal": c07_on_fatal_other}],
@@ -447,7 +447,7 @@ register("C10", title="retried POST is not applied twice", pkg=".",
 
 
 register("C16", title="configuration updates", pkg=".",
-         parts=[{"test": "^TestVerifC16$", "children": {"quick": 8, "thorough": 16}, "cases": {"quick": 3, "thorough": 30}}],
+         parts=[{"test": "^TestVerifC16$", "children": {"quick": 8, "thorough": 16}, "cases": {"quick": 6, "thorough": 400}}],
          timeout={"quick": 400, "thorough": 2400}, level="exploration",
          rule="in-process node; sequences of POST /config with generated TOML (valid, syntax errors, wrong types, bad durations/hex) x revision header "
               "(current, stale, future, missing, garbage), interleaved with sessions, OPER probes, GLINE and snapshot+restart; reference model of (revision, "
@@ -457,7 +457,7 @@ register("C16", title="configuration updates", pkg=".",
          floor={"quick": 150, "thorough": 2000},
          technique="reference-model oracle over the HTTP API of an in-process node")
 register("C11", title="credentials", pkg=".",
-         parts=[{"test": "^TestVerifC11$", "children": {"quick": 2, "thorough": 8}, "cases": {"quick": 1, "thorough": 3}}],
+         parts=[{"test": "^TestVerifC11$", "children": {"quick": 2, "thorough": 16}, "cases": {"quick": 1, "thorough": 6}}],
          timeout={"quick": 400, "thorough": 2400}, level="exploration", env={"VERIF_REPO": "/repo"},
          rule="in-process node; every public session route x method x session state (fresh, logged in, other, deleted, never existed) x id spelling x credential "
               "variant (none, empty, wrong, prefix, extended, upper-case, own-after-delete, another live session's) must be refused without any change of state "
@@ -490,7 +490,7 @@ def c07_on_fatal(vc, spec, res, c, recs):
 
 
 register("C07", title="message of death is contained", pkg=".", on_fatal=c07_on_fatal,
-         parts=[{"test": "^TestVerifC07$", "children": {"quick": 8, "thorough": 16}, "cases": {"quick": 5, "thorough": 40}},
+         parts=[{"test": "^TestVerifC07$", "children": {"quick": 8, "thorough": 16}, "cases": {"quick": 5, "thorough": 120}},
                 {"cluster": True, "cluster_args": ["-mod"], "tiers": ["thorough"], "children": {"quick": 0, "thorough": 4}, "cases": {"quick": 1, "thorough": 2},
                  "race": {"quick": False, "thorough": False}, "timeout": {"quick": 900, "thorough": 2400}}],
          timeout={"quick": 400, "thorough": 2400}, level="fault_enumeration",
